@@ -12,6 +12,13 @@ COMMON_NOTE = (
 )
 
 CHECKS = {
+    "C19": dict(
+        technique="exhaustive enumeration of configurations x single-fault injection at every privileged call of the recorded start-up trace, judged by a reference model of the required order",
+        text="For all 8 combinations of usechroot/setuid/setgid, for init_security() alone and for the whole initialize() (real bind on port 0, TLS off and on), start-up is run with every privileged entry point substituted by a recorder, "
+             "once without fault and once with each occurrence of each privileged call (and of the bind and the certificate load) raising. The trace must satisfy: bind and key load before any privilege is given up; chroot first, root rewritten to '/', working directory moved inside; "
+             "setgroups(()) < setregid < setreuid; nothing unconfigured; a failing step propagates, nothing privileged follows it and no server is returned.",
+        design_ref="DESIGN.md 3/C19",
+    ),
     "C14": dict(
         technique="preemption-bounded stateless DFS over thread interleavings of real concurrent connection handlers under a cooperative (baton) scheduler with sys.settrace line-level scheduling points; exhaustive enumeration of completion orders x reaping points on real forking/threading servers",
         text="All unordered pairs (thorough: also triples) of a 10-request menu chosen to collide run concurrently through the real connection handler, from a cold start (lazily initialised module tables reset) and warm, "
